@@ -7,8 +7,9 @@
                nobody but transition_to_fin_wait_1 enters FinWait1), proved function by function up
                to poll_body;
    - errors: no function but process_incoming_message reports ErrStResetReceived. *)
+From Utp Require Conn.VSock_Inv.
 From Utp Require Import Base.Prelude Wire.SeqNr Wire.Header Wire.Header_Proofs Rtt.Rtte Mtu.SegSizes
-  Rx.Rx Tx.Ring Tx.Segments Conn.Recovery Conn.Msg Conn.VSockRec Conn.VSock Conn.VSockRun Conn.VObs
+  Rx.Rx Tx.Ring Tx.Segments Tx.Segments_Proofs Conn.VSock_LemmasIn Conn.Recovery Conn.Msg Conn.VSockRec Conn.VSock Conn.VSockRun Conn.VObs
   Conn.VSock_LemmasTx Conn.VSock_LemmasFin Conn.C17_Pred Conn.C17_Proofs.
 
 Ltac abs_as t F z := revert F; generalize t; intros z F.
@@ -1291,6 +1292,271 @@ Proof.
   - eapply GN_trans; [|exact Hl]. exists [data_pkt s h f]. split; [exact Ho|].
     constructor; [|constructor]. unfold nofin, data_pkt, data_hdr. cbn [p_hdr ch_type]. discriminate.
   - exfalso. rewrite <- Hsg in Hit. pose proof (after_rto_k_norestart _ _ _ _ _ Hit H) as K. congruence.
+Qed.
+
+(* ================================================================== the segmented bytes lie within the
+   send buffer: 0 <= ss_len_bytes <= length ring, an invariant of every trace (p = bytes acknowledged by
+   messages already processed in this poll and not yet truncated from the ring) *)
+Notation ss_ok := VSock_Inv.ss_ok.
+
+Definition LB (p : Z) (s : vsock) : Prop :=
+  seg_inv (v_segs s) /\ ss_ok (v_ss s) /\ 0 <= p /\
+  ss_len_bytes (v_segs s) + p <= Z.of_nat (length (ring (v_tx s))).
+
+Lemma LB_zero p s : LB p s -> LB 0 s.
+Proof. unfold LB. intros (A & B & C & D). split; [exact A|]. split; [exact B|]. split; lia. Qed.
+
+Lemma seg_len_eq t : seg_inv t -> ss_len_bytes t = ss_offset t - ss_removed t.
+Proof. intros (_ & H & _). lia. Qed.
+
+Lemma seg_len_nonneg t : seg_inv t -> 0 <= ss_len_bytes t.
+Proof. intros (H1 & _ & H3 & _). rewrite H1. eapply tiled_sizes_nonneg; eauto. Qed.
+
+(* steps that touch neither the segments, nor the segment sizes, nor the ring *)
+Definition kp (s s' : vsock) : Prop :=
+  v_segs s' = v_segs s /\ v_ss s' = v_ss s /\ ring (v_tx s') = ring (v_tx s).
+
+Lemma kp_refl s : kp s s.
+Proof. unfold kp. auto. Qed.
+Lemma kp_trans a b c : kp a b -> kp b c -> kp a c.
+Proof. unfold kp. intros (A1 & A2 & A3) (B1 & B2 & B3). repeat split; congruence. Qed.
+
+Lemma LB_kp p s s' : LB p s -> kp s s' -> LB p s'.
+Proof. unfold LB. intros H (K1 & K2 & K3). rewrite K1, K2, K3. exact H. Qed.
+
+Lemma sd_kp (s s' : vsock) : sd_frame s s' -> v_segs s' = v_segs s -> kp s s'.
+Proof.
+  unfold sd_frame, kp. intros H Hs. repeat match goal with H : _ /\ _ |- _ => destruct H end.
+  repeat split; congruence.
+Qed.
+
+Definition skp {A} (s : vsock) (m : step A) : Prop :=
+  match m with SOk s' _ | SErr s' _ => kp s s' | SPanic => True end.
+
+Lemma skp_bind {A B} s (m : step A) (f : vsock -> A -> step B) :
+  skp s m -> (forall s1 a, skp s1 (f s1 a)) -> skp s (sbind m f).
+Proof.
+  intros Hm Hf. destruct m as [s1 a|s1 e|]; cbn [sbind skp] in *; auto.
+  specialize (Hf s1 a). destruct (f s1 a); cbn [skp] in *; auto; eapply kp_trans; eauto.
+Qed.
+
+Lemma send_control_packet_kp (s : vsock) h : skp s (send_control_packet s h).
+Proof.
+  pose proof (VSock_LemmasTx.send_control_packet_spec s h) as H.
+  destruct (send_control_packet s h) as [s' [|]|s' e|]; try exact I.
+  - destruct H as (Hf & _ & Hs & _). apply sd_kp; assumption.
+  - destruct H as (Hf & _ & Hs & _). apply sd_kp; assumption.
+  - destruct H as (Hf & _ & Hs & _). apply sd_kp; assumption.
+Qed.
+
+Lemma send_ack_kp (s : vsock) : skp s (send_ack s).
+Proof. unfold send_ack. apply send_control_packet_kp. Qed.
+
+Lemma maybe_send_fin_kp (s : vsock) : skp s (maybe_send_fin s).
+Proof.
+  pose proof (VSock_LemmasTx.maybe_send_fin_spec s) as H.
+  destruct (maybe_send_fin s) as [s' [|]|s' e|]; try exact I.
+  - destruct H as (seq & _ & _ & Hf & _ & Hs & _). apply sd_kp; assumption.
+  - destruct H as (Hf & _ & Hs & _). apply sd_kp; assumption.
+  - destruct H as (Hf & _ & Hs & _). apply sd_kp; assumption.
+Qed.
+
+Ltac kp_triv := cbn [skp]; unfold kp; vsimpl; auto.
+
+Lemma maybe_send_ack_kp (s : vsock) : skp s (maybe_send_ack s).
+Proof.
+  unfold maybe_send_ack.
+  destruct (immediate_ack_to_transmit s); [apply send_ack_kp|].
+  destruct (should_send_window_update s); [apply send_ack_kp|].
+  destruct (timer_expired _ _).
+  - destruct (ack_to_transmit s); [apply send_ack_kp|kp_triv].
+  - destruct (0 <? _); kp_triv.
+Qed.
+
+Lemma maybe_send_syn_ack_kp (s : vsock) : skp s (maybe_send_syn_ack s).
+Proof.
+  unfold maybe_send_syn_ack.
+  assert (Gg : forall c,
+    skp s (if c =? o_max_retx (v_opts s) then SErr s ErrMaxSynAckRetransmissionsReached
+     else sbind (send_ack s) (fun s1 sent => if sent then
+        SOk (set_t_syn_ack_resend (set_state s1 (SynAckSent (c + 1)))
+              (timer_arm (v_t_syn_ack_resend s1) (v_now s1) SYNACK_RESEND_INTERNAL true)) tt
+        else SOk s1 tt))).
+  { intros c. destruct (_ =? _); [kp_triv|].
+    apply skp_bind; [apply send_ack_kp|]. intros s1 a. destruct a; kp_triv. }
+  destruct (v_state s); try kp_triv; try apply Gg.
+  destruct (timer_expired _ _); [apply Gg|kp_triv].
+Qed.
+
+Lemma transition_kp (s : vsock) : kp s (transition_to_fin_wait_1 s).
+Proof. unfold transition_to_fin_wait_1. destruct (v_state s); kp_triv. Qed.
+
+Lemma mark_both_closed_kp (s : vsock) : kp s (mark_both_closed s).
+Proof.
+  unfold mark_both_closed. destruct (rx_mark_vsock_closed (v_rx s)) as [rx1 w1].
+  unfold mark_vsock_closed, add_wakes, kp. vsimpl. cbn [ring upd]. auto.
+Qed.
+
+Lemma jbd_kp (s : vsock) e : kp s (just_before_death s e).
+Proof.
+  unfold just_before_death. cbv zeta.
+  match goal with |- context [mark_both_closed ?x] => assert (H1 : kp s x); [|revert H1; generalize x; intros s1 H1] end.
+  { destruct e; [|kp_triv]. unfold rx_enqueue_error, add_wakes, kp. vsimpl. auto. }
+  assert (H2 : kp s (mark_both_closed s1)) by (eapply kp_trans; [exact H1|apply mark_both_closed_kp]).
+  revert H2. generalize (mark_both_closed s1). intros s2 H2.
+  destruct e; [|exact H2]. destruct (negb _); [|exact H2].
+  pose proof (send_control_packet_kp (set_seq_nr s2 (wadd16 (v_seq_nr s2) 1))
+                (hdr_with (outgoing_header s2) ST_FIN (v_seq_nr s2) None)) as K.
+  destruct (send_control_packet _ _); cbn [skp] in K; try exact H2;
+    (eapply kp_trans; [exact H2|exact K]).
+Qed.
+
+(* ---- Hoare-style results ---- *)
+Definition sLB {A} (p : Z) (m : step A) : Prop :=
+  match m with SOk s' _ => LB p s' | SErr s' _ => LB 0 s' | SPanic => True end.
+
+Lemma sLB_bind {A B} p (m : step A) (f : vsock -> A -> step B) :
+  sLB p m -> (forall s1 a, LB p s1 -> sLB p (f s1 a)) -> sLB p (sbind m f).
+Proof. intros Hm Hf. destruct m as [s1 a|s1 e|]; cbn [sbind sLB] in *; auto. Qed.
+
+Lemma skp_sLB {A} p s (m : step A) : LB p s -> skp s m -> sLB p m.
+Proof.
+  intros H K. destruct m; cbn [skp sLB] in *; auto; [eapply LB_kp; eauto|].
+  apply LB_zero with (p := p). eapply LB_kp; eauto.
+Qed.
+
+Lemma on_sent_len t i now : ss_len_bytes (on_sent t i now) = ss_len_bytes t.
+Proof. reflexivity. Qed.
+
+Lemma send_data_LB p (s : vsock) h f : LB p s -> sLB p (send_data s h f).
+Proof.
+  intros H. pose proof (send_data_spec s h f) as Hd.
+  destruct (send_data s h f) as [s' [| |]|s' e|]; cbn [sLB]; try exact I.
+  - destruct Hd as (Hf & _ & Hs & _). destruct H as (A & B & C & D).
+    assert (Htx : v_tx s' = v_tx s /\ v_ss s' = v_ss s) by (unfold sd_frame in Hf; tauto).
+    destruct Htx as [Htx Hss]. unfold LB. rewrite Hs, Hss, Htx, on_sent_len.
+    split; [apply on_sent_inv; exact A|]. auto.
+  - destruct Hd as ((Hf & _ & Hs & _) & _). eapply LB_kp; [exact H|apply sd_kp; assumption].
+  - destruct Hd as ((Hf & _ & Hs & _) & _). eapply LB_kp; [exact H|apply sd_kp; assumption].
+  - destruct Hd as ((Hf & _ & Hs & _) & _). apply LB_zero with (p := p).
+    eapply LB_kp; [exact H|apply sd_kp; assumption].
+Qed.
+
+Lemma recovery_loop_LB p : forall items (s : vsock) h mss0 st, LB p s -> sLB p (recovery_loop items s h mss0 st).
+Proof.
+  induction items as [|f rest IH]; intros s h mss0 st H; cbn [recovery_loop]; [exact H|].
+  destruct (negb _); [exact H|].
+  destruct (_ && _); [apply IH; exact H|]. destruct (_ && _); [exact H|].
+  pose proof (send_data_LB p s h f H) as Hd.
+  destruct (send_data s h f) as [s1 r|s1 e|]; cbn [sLB] in *; auto.
+  destruct r; cbn [sLB]; [apply IH; exact Hd|exact Hd|apply LB_zero with (p := p); exact Hd].
+Qed.
+
+Lemma new_data_loop_LB p : forall items (s : vsock) h rem, LB p s -> sLB p (new_data_loop items s h rem).
+Proof.
+  induction items as [|f rest IH]; intros s h rem H; cbn [new_data_loop]; [exact H|].
+  destruct (_ <? _); [exact H|].
+  pose proof (send_data_LB p s h f H) as Hd.
+  destruct (send_data s h f) as [s1 r|s1 e|]; cbn [sLB] in *; auto.
+  destruct r; cbn [sLB]; [apply IH; exact Hd|exact Hd|exact Hd].
+Qed.
+
+Lemma on_rto_reactions_kp (s s' : vsock) : on_rto_reactions cci s = Some s' -> kp s s'.
+Proof. unfold on_rto_reactions. destruct (on_rto_timeout _); [|discriminate].
+  intro H; injection H as <-. kp_triv. Qed.
+
+Lemma send_tx_queue_LB p (s : vsock) : LB p s -> sLB p (send_tx_queue cci s).
+Proof.
+  intro H. unfold send_tx_queue. destruct (v_transport_pending s); [exact H|].
+  apply sLB_bind.
+  { destruct (timer_expired _ _); [|exact H].
+    destruct (iter_for_sending _ _) as [|f l].
+    - destruct (our_fin_if_unacked _); [|exact H].
+      destruct (_ =? _); [|exact H].
+      apply sLB_bind.
+      { apply (skp_sLB p (set_last_sent_seq_nr s (wsub16 (v_last_sent_seq_nr s) 1))); [exact H|].
+        apply maybe_send_fin_kp. }
+      intros s1 a H1. destruct a; [|exact H1].
+      destruct (on_rto_reactions cci s1) eqn:E; [|exact I]. apply on_rto_reactions_kp in E.
+      cbn [sLB]. eapply LB_kp; [exact H1|]. eapply kp_trans; [exact E|kp_triv].
+    - pose proof (send_data_LB p s (outgoing_header s) f H) as Hd.
+      destruct (send_data _ _ f) as [s1 r|s1 e|]; cbn [sLB] in *; auto.
+      destruct r; cbn [sLB]; auto; [|apply LB_zero with (p := p); exact Hd].
+      cbv zeta.
+      match goal with |- sLB _ (match ?o with _ => _ end) => destruct o as [s2|] eqn:E end; [|exact I].
+      assert (F2 : kp s1 s2).
+      { destruct (negb _); [apply on_rto_reactions_kp; exact E|injection E as <-; kp_triv]. }
+      cbn [sLB]. eapply LB_kp; [exact Hd|]. eapply kp_trans; [exact F2|kp_triv]. }
+  intros s1 ret H1. destruct ret; [exact H1|].
+  destruct (0 <? _); [exact H1|]. destruct (ss_segs _); [exact H1|].
+  apply sLB_bind.
+  { destruct (rv_phase _); try exact H1.
+    apply sLB_bind; [apply recovery_loop_LB; exact H1|].
+    intros s2 [st early] H2. cbv beta iota zeta.
+    destruct early; [exact H2|].
+    match goal with |- sLB _ (match our_fin_if_unacked (v_state ?y) with _ => _ end) =>
+      assert (F3 : LB p y); [|revert F3; generalize y; intros sy F3] end.
+    { unfold set_recovering. destruct (_ <? _); [|exact H2]. destruct (rc_recalc _); [exact H2|].
+      destruct (0 <? _); exact H2. }
+    destruct (our_fin_if_unacked _); [destruct (_ =? _)|]; cbn [sLB]; exact F3. }
+  intros s2 ret H2. destruct ret; [exact H2|].
+  apply sLB_bind; [apply new_data_loop_LB; exact H2|].
+  intros s3 tl H3. destruct tl as [[sq sz]|]; [|exact H3].
+  destruct (pop_mtu_probe _ _) as [segs' popped] eqn:Ep. destruct popped; cbn [sLB];
+    [|apply LB_zero with (p := p); exact H3].
+  destruct H3 as (A & B & C & D).
+  destruct (VSock_Inv.pop_mtu_probe_fields _ _ _ _ A Ep) as (A' & Hr & Ho).
+  unfold LB. vsimpl. split; [exact A'|].
+  split; [apply VSock_Inv.disarm_ss_ok; apply VSock_Inv.failed_ss_ok; exact B|].
+  split; [exact C|]. rewrite (seg_len_eq _ A'). rewrite (seg_len_eq _ A) in D. lia.
+Qed.
+
+(* ---- segmentation ---- *)
+Lemma split_LB (s : vsock) : LB 0 s -> sLB 0 (split_tx_queue_into_segments cci s).
+Proof.
+  intro H. unfold split_tx_queue_into_segments. cbv zeta.
+  destruct (_ =? 0).
+  { cbn [sLB]. eapply LB_kp; [exact H|]. unfold kp. vsimpl. unfold register_dispatcher_if_empty.
+    destruct (ring (v_tx s)) eqn:Er; cbn [ring upd]; auto. }
+  match goal with |- sLB _ (if is_remote_fin_or_later (v_state ?x) then _ else _) =>
+    assert (F : LB 0 x /\ ring (v_tx x) = ring (v_tx s)); [|revert F; generalize x; intros s1 [F Fr]] end.
+  { destruct (_ && _); [|auto]. unfold grow.
+    destruct (_ <=? _); cbn [fst snd]; [split; [exact H|reflexivity]|].
+    unfold wake_writer, add_wakes. split; [|vsimpl; reflexivity].
+    eapply LB_kp; [exact H|]. unfold kp. vsimpl. cbn [ring upd]. auto. }
+  destruct (is_remote_fin_or_later _); [exact F|].
+  destruct (pop_expired_mtu_probe _ _ _) as [segs1 pe] eqn:Ep.
+  destruct F as (A & B & C & D).
+  destruct (VSock_Inv.pop_expired_fields _ _ _ _ _ A Ep) as (A1 & Hr1 & Ho1).
+  assert (Hl1 : ss_len_bytes segs1 <= ss_len_bytes (v_segs s1)).
+  { rewrite (seg_len_eq _ A1), (seg_len_eq _ A). lia. }
+  assert (Hcont : forall s2 : vsock, seg_inv (v_segs s2) -> ss_ok (v_ss s2) -> ring (v_tx s2) = ring (v_tx s) ->
+     ss_len_bytes (v_segs s2) <= Z.of_nat (length (ring (v_tx s))) ->
+     sLB 0 (if Z.of_nat (length (ring (v_tx s))) <? ss_len_bytes (v_segs s2)
+            then SErr s2 (ErrBug BugInBufferComputations)
+            else match segment_loop (ring (v_tx s2)) (o_nagle (v_opts s2)) (v_ss s2) (v_segs s2)
+                         (Z.of_nat (length (ring (v_tx s))) - ss_len_bytes (v_segs s2))
+                         (v_last_remote_window s2) with
+                 | Some (ss', segs', remaining) =>
+                     SOk (set_unsegmented (set_segs (set_ss s2 ss') segs') remaining) tt
+                 | None => SPanic
+                 end)).
+  { intros s2 A2 B2 R2 L2.
+    destruct (Z.ltb_spec (Z.of_nat (length (ring (v_tx s)))) (ss_len_bytes (v_segs s2))) as [Hbad|Hok].
+    - exfalso. lia.
+    - destruct (VSock_Inv.segment_loop_spec (ring (v_tx s2)) (o_nagle (v_opts s2)) (v_ss s2) (v_segs s2)
+                  (Z.of_nat (length (ring (v_tx s))) - ss_len_bytes (v_segs s2)) (v_last_remote_window s2) B2 A2)
+        as (ss' & segs' & rem' & -> & A1' & A2' & A3' & A4' & A5'); [lia|].
+      cbn [sLB]. unfold LB. vsimpl. split; [exact A2'|]. split; [exact A1'|]. split; [lia|].
+      rewrite R2. rewrite (seg_len_eq _ A2'). rewrite (seg_len_eq _ A2) in A4', Hok. lia. }
+  destruct pe as [rewind_to payload_size| |].
+  - apply Hcont.
+    + destruct (seq_gt _ _); vsimpl; exact A1.
+    + destruct (seq_gt _ _); vsimpl; apply VSock_Inv.failed_ss_ok; exact B.
+    + destruct (seq_gt _ _); vsimpl; exact Fr.
+    + rewrite <- Fr. destruct (seq_gt _ _); vsimpl; lia.
+  - cbn [sLB]. unfold LB. vsimpl. auto.
+  - apply Hcont; try assumption. rewrite <- Fr. lia.
 Qed.
 
 End WithCC.
